@@ -190,12 +190,33 @@ pub fn scripts_for(log: &[(usize, usize)], tier_full: bool) -> Vec<Script> {
 
 pub fn check_case(case: &MapCase, st: &mut Stats) -> Check {
     let bytes = case.bytes();
-    let canonical = write_cache(&bytes)?;
+    let full = st.cases % 8 == 0;
+    check_sinks(&bytes, case.hash(), full, usize::MAX, st)
+}
+
+/// Sized mappings: string tables around 8 KiB / 64 KiB / 1 MiB (buffering thresholds) and 255..257 classes
+/// (one write call per class record).
+#[derive(Clone, Debug, Serialize, Deserialize)]
+pub struct SizedCase {
+    pub classes: usize,
+    pub name_len: usize,
+}
+
+pub fn check_sized(c: &SizedCase, st: &mut Stats) -> Check {
+    let mut text = String::new();
+    for i in 0..c.classes {
+        text.push_str(&format!("com.example.{}{i} -> c{i}:\n    1:2:void m{i}(int):3:4 -> {}\n", "N".repeat(c.name_len), "o".repeat(c.name_len / 2 + 1)));
+    }
+    st.class("sized mapping (string table around a buffering threshold / hundreds of class records)");
+    check_sinks(text.as_bytes(), crate::engine::fnv64(text.as_bytes()), false, 40, st)
+}
+
+pub fn check_sinks(bytes: &[u8], case_hash: u64, all_lengths: bool, max_pairs: usize, st: &mut Stats) -> Check {
+    let canonical = write_cache(bytes)?;
     let canonical = canonical.bytes().to_vec();
-    let case_hash = case.hash();
     // record the unperturbed call sequence
     let mut rec = Sink::new(Script::All);
-    let r = guarded(|| proguard::ProguardCache::write(&proguard::ProguardMapping::new(&bytes), &mut rec)).map_err(|p| Fail::new("write-panic", p))?;
+    let r = guarded(|| proguard::ProguardCache::write(&proguard::ProguardMapping::new(bytes), &mut rec)).map_err(|p| Fail::new("write-panic", p))?;
     if r.is_err() || rec.accepted != canonical {
         return Err(Fail::new("nondeterministic-write", "writing into an accept-everything sink differs from writing into a Vec"));
     }
@@ -216,9 +237,20 @@ pub fn check_case(case: &MapCase, st: &mut Stats) -> Check {
         st.class("mapping without any padding");
     }
     let first_pad_call = first_pad.and_then(|fp| rec.log.iter().position(|(off, _)| *off >= fp));
-    let scripts = scripts_for(&rec.log, st.cases % 8 == 0);
+    let mut scripts = scripts_for(&rec.log, all_lengths);
+    if max_pairs != usize::MAX {
+        // large inputs: keep every single-fault script, thin out the quadratic short-then-fail combinations and the
+        // byte-at-a-time sinks (k = 1, 2 stay)
+        let n_calls = rec.log.len();
+        let stride = (n_calls / max_pairs.max(1)).max(1);
+        scripts.retain(|s| match s {
+            Script::ShortThenFail { short_call, fail_call, .. } => short_call % stride == 0 && (fail_call % stride == 0 || *fail_call == short_call + 1 || *fail_call >= n_calls - 1),
+            Script::MaxK(k) => *k <= 3 || *k == 16,
+            _ => true,
+        });
+    }
     if st.want_sample() && first_pad.is_some() {
-        st.sample(|| json!({"mapping": crate::engine::show_bytes(&bytes), "canonical_len": canonical.len(), "write_calls(offset,len)": rec.log, "padding_regions": pads, "sinks_enumerated": scripts.len(), "example_sinks": &scripts[..scripts.len().min(4)]}));
+        st.sample(|| json!({"mapping": crate::engine::show_bytes(&bytes[..bytes.len().min(1500)]), "canonical_len": canonical.len(), "write_calls(offset,len)": rec.log, "padding_regions": pads, "sinks_enumerated": scripts.len(), "example_sinks": &scripts[..scripts.len().min(4)]}));
     }
     for (si, sc) in scripts.iter().enumerate() {
         st.evaluations += 1;
@@ -244,7 +276,7 @@ pub fn check_case(case: &MapCase, st: &mut Stats) -> Check {
         } else {
             st.class("fault in the payload before any padding");
         }
-        run_sink(&bytes, &canonical, sc)?;
+        run_sink(bytes, &canonical, sc)?;
     }
     Ok(())
 }
@@ -255,6 +287,15 @@ pub fn run(ctx: &Ctx) -> Report {
     rep.assumptions = vec!["sinks obey the std::io::Write contract (never Ok(0) for a non-empty buffer)".into(), "an Interrupted that surfaces as Err is tolerated (the statement only forbids success with wrong bytes)".into()];
     let n = ctx.cases(15_000, 600_000);
     rep.run_stage("ast", || map_case(&cfg()), n, check_case);
+    let mut sized = Vec::new();
+    for (classes, name_len) in [(1usize, 4000usize), (1, 5400), (1, 5500), (2, 2700), (3, 14_000), (1, 43_600), (1, 43_700), (255, 3), (256, 3), (257, 3), (40, 200)] {
+        sized.push(SizedCase { classes, name_len });
+    }
+    if ctx.tier == crate::engine::Tier::Thorough {
+        sized.push(SizedCase { classes: 1, name_len: 700_000 });
+        sized.push(SizedCase { classes: 4097, name_len: 2 });
+    }
+    rep.run_enum("sized", &sized, check_sized);
     rep.stats.exhaustive.push("per mapping: every call index for short-once / fail / interrupt sinks, k=1..16".into());
     rep
 }
@@ -268,6 +309,7 @@ pub struct SinkReplay {
 pub fn replay(stage: &str, case: &Value) -> Check {
     let mut st = Stats::new();
     match stage {
+        "sized" => check_sized(&serde_json::from_value(case.clone()).map_err(|e| Fail::new("harness-replay", e.to_string()))?, &mut st),
         "ast" => check_case(&serde_json::from_value(case.clone()).map_err(|e| Fail::new("harness-replay", e.to_string()))?, &mut st),
         _ => Err(Fail::new("harness-replay", format!("unknown stage {stage}"))),
     }
